@@ -16,8 +16,10 @@ LEVEL = 'exploration'
 BUDGET = {'quick': 18, 'thorough': 200}
 BLOCK = 25
 STREAM_ORDER = ['ops', 'guards', 'order', 'chart', 'cfg']
-RULE = ('one abstract well-formed chart is materialised 4 ways - add_state/add_transition in creation order, the same calls in a drawn '
-        'permutation, and two YAML documents with independently permuted sibling states and transition lists - and the same seeded script '
+RULE = ('one abstract well-formed chart is materialised 5 ways - add_state/add_transition in creation order, the same calls in a drawn '
+        'permutation, two YAML documents with independently permuted sibling states and transition lists, and through the editing API '
+        '(move_state / rename_state detour); in half of the runs every materialisation also gets two guard-twin transitions added in a drawn '
+        'order and one removed again - and the same seeded script '
         'drives all of them in lock-step: macro steps (consumed event, transitions, exit/entry order per micro step, sent events), executed '
         'code, context, or the exception class at each step must be identical. After the batch, the first runs are re-executed in fresh '
         'interpreter processes under PYTHONHASHSEED in {0,1,2,3,4242} and the per-run digests of the complete event logs are compared. '
@@ -38,8 +40,27 @@ def code(log):
 
 
 def materialisations(sp, order):
-    return [('api creation order', build_api(sp)), ('api permuted', build_api(sp, order)),
-            ('yaml permuted 1', build_yaml(sp, order)), ('yaml permuted 2', build_yaml(sp, order))]
+    from sim.chart import build_via_edits, legal_transition
+    from sismic.model import Transition
+    mats = [('api creation order', build_api(sp)), ('api permuted', build_api(sp, order)),
+            ('yaml permuted 1', build_yaml(sp, order)), ('yaml permuted 2', build_yaml(sp, order)),
+            ('api through move_state / rename_state', build_via_edits(sp, order)[0])]
+    # the same small edit applied to every materialisation, with its two add_transition calls in a drawn order: two
+    # transitions that differ only by their guard are added and the one whose guard never holds is removed again
+    srcs = [n for n in sorted(sp.states) if sp.kind(n) in ('basic', 'compound', 'orthogonal')]
+    evs = sorted({t.event for t in sp.trans if t.event})
+    if srcs and evs and order.flag(1, 2):
+        src = order.pick(srcs)
+        tg = [n for n in sorted(sp.states) if legal_transition(sp, src, n)]
+        if tg:
+            tgt, evn = order.pick(tg), order.pick(evs)
+            for _, sc in mats:
+                keep = Transition(src, tgt, event=evn, guard='v >= 0', action='P.act(9002, event)', priority=7)
+                drop = Transition(src, tgt, event=evn, guard='v < 0', action='P.act(9002, event)', priority=7)
+                for t in (order.shuffle([keep, drop])):
+                    sc.add_transition(t)
+                sc.remove_transition(drop)
+    return mats
 
 
 def run(ch, tier, digest=None):
